@@ -58,9 +58,10 @@ Spellings == {
     << <<"1","8","4","4","6","7","4","4","0","7","3","7","0","9","5","5","1","6","1","5">>, <<"num", NumCap>> >> }
 
 SpellingOK ==
-    /\ \A sp \in Spellings : Tokenize(sp[1]) = [ok |-> TRUE, toks |-> <<sp[2], <<"eof">> >>]
+    /\ \A sp \in Spellings : (Tokenize(sp[1]).ok /\ Tokenize(sp[1]).toks = <<sp[2], <<"eof">> >>)
     \* literals beyond usize and non-ASCII digits are not numbers of the language
-    /\ ~Tokenize(<<"1","8","4","4","6","7","4","4","0","7","3","7","0","9","5","5","1","6","1","6">>).ok
+    /\ Tokenize(<<"1","8","4","4","6","7","4","4","0","7","3","7","0","9","5","5","1","6","1","6">>).loose
+    /\ ~Tokenize(<<"1","8","4","4","6","7","4","4","0","7","3","7","0","9","5","5","1","6","1","5">>).loose
     /\ ~Tokenize(<<"1", "٣">>).ok
     \* longest match / keyword boundaries
     /\ Tokenize(<<"<","=",">","=">>).toks = << <<"iff">>, <<"eq">>, <<"eof">> >>
